@@ -504,6 +504,16 @@ def gen_op(rng, M):
         return ('set_default_key',) + rng.choice(alive)
     if r < 0.64 and certs:
         return ('set_default_cert',) + rng.choice(certs)
+    if r < 0.67 and alive:
+        # set_default_* with a name that is no member of the scope: a name that does not exist, or one owned by another scope
+        idn, k = rng.choice(alive)
+        others = [x for x in alive if x[0] != idn]
+        if certs and rng.random() < 0.5:
+            oc = [x for x in certs if x[1] != k]
+            tgt = rng.choice(oc)[2] if (oc and rng.random() < 0.6) else k + (C(b'ghost'), C(b'v1'))
+            return ('set_default_cert_nonmember', idn, k, tgt)
+        tgt = rng.choice(others)[1] if (others and rng.random() < 0.6) else idn + (C(b'KEY'), C(b'ghost'))
+        return ('set_default_key_nonmember', idn, tgt)
     if r < 0.72 and certs:
         return ('del_cert',) + rng.choice(certs) + (rng.choice(['kc', 'kc', 'obj']),)
     if r < 0.80 and alive:
@@ -592,6 +602,29 @@ def apply_op(S, M, op, rng, ctx):
         kc[list(idn)][list(k)].set_default_cert(list(c))
         M.ids[idn]['keys'][k]['default_cert'] = c
         M.ids[idn]['keys'][k]['cert_default_explicit'] = True
+    elif kind in ('set_default_key_nonmember', 'set_default_cert_nonmember'):
+        # not a member of the scope: the call may refuse or do nothing; this scope keeps a default all the same (nothing was
+        # deleted).  What happens to the scope that owns the name is not stated: its default is re-read, not prescribed.
+        try:
+            if kind == 'set_default_key_nonmember':
+                _, idn, tgt = op
+                kc[list(idn)].set_default_key(list(tgt))
+                for i2 in M.ids.values():
+                    if tgt in i2['keys']:
+                        i2['key_default_explicit'] = False
+            else:
+                _, idn, k, tgt = op
+                kc[list(idn)][list(k)].set_default_cert(list(tgt))
+                for i2 in M.ids.values():
+                    for kk in i2['keys'].values():
+                        if tgt in kk['certs']:
+                            kk['cert_default_explicit'] = False
+            ctx.event('set-default-with-nonmember-name')
+        except InjectedFault:
+            raise
+        except Exception:   # noqa
+            ctx.event('set-default-with-nonmember-name')
+            ctx.event('set-default-nonmember-refused')
     elif kind == 'del_cert':
         _, idn, k, c, via = op
         if via == 'obj':
@@ -761,11 +794,11 @@ def run_history(ctx, rng, length, faults):
 def run(ctx):
     ctx.rule = RULE
     rng = ctx.rng
-    n = ctx.n(120, 20000)
+    n = ctx.n(100, 20000)
     for i in range(n):
         run_history(ctx, rng, rng.randint(5, 40), faults=(i % 3 == 2))
     need = ['invariant-scan', 'signer-judged', 'operation-repeated', 'crash-reopen', 'op-del_key', 'op-del_identity', 'op-reopen',
-            'op-import_cert', 'signer-deleted-key-refused']
+            'op-import_cert', 'signer-deleted-key-refused', 'set-default-with-nonmember-name']
     for k in need:
         ctx.need_event(k)
     ctx.assumptions = ['crash points are simulated by abandoning the SQLite connection without commit (SQLite\'s atomic commit is trusted)',
